@@ -31,13 +31,15 @@ VARIABLES l, l0,
           rbOK, dcOK,
           pli, rem, rdone,     \* line of the last CommitBegin (0 = none), real Cache calls since, commit finished
           sync,     \* the model and the real state are comparable in this state
+          evb,      \* pod -> line of the real projection logged just before its latest successful Evict (0 = none)
+          uvOK,     \* the last un-eviction gave the pod back what it had before that Evict
           hid,      \* <<node, pod>>: the pod was re-nominated onto another GPU of the node it is being evicted from; the node
                     \* then counts it twice by design (releasing on the old GPU, nominated on the new one) under ONE entry
           drifted,  \* a drift monitor was FALSE in an earlier state of this scenario (reported once)
           taint,    \* some property was FALSE in an earlier state of this scenario (drift monitors are then void)
           dmsg      \* first drift noticed by an event handler ("" = none)
 
-tvars == <<vars, l, l0, ri, oi, cps, rbOK, dcOK, pli, rem, rdone, sync, hid, drifted, taint, dmsg>>
+tvars == <<vars, l, l0, ri, oi, cps, rbOK, dcOK, pli, rem, rdone, sync, evb, uvOK, hid, drifted, taint, dmsg>>
 
 real  == Trace[ri].state
 rops  == IF Trace[oi].ev = "Scenario" THEN <<>> ELSE Trace[oi].ops
@@ -45,7 +47,7 @@ rops  == IF Trace[oi].ev = "Scenario" THEN <<>> ELSE Trace[oi].ops
 Starts == {i \in 1..Len(Trace) : Trace[i].ev = "Scenario"}
 
 \* ---- real projection -> model shape ----
-RPod(r)   == [st |-> r.st, node |-> r.node, groups |-> r.groups, virt |-> (r.virt = 1)]
+RPod(r)   == [st |-> r.st, node |-> r.node, groups |-> r.groups, virt |-> (r.virt = 1), acc |-> r.acc]
 RNode(r)  == [ig |-> r.ig, rg |-> r.rg, ug |-> r.ug, ic |-> r.ic, rc |-> r.rc, uc |-> r.uc,
               um |-> r.um, rm |-> r.rm, am |-> r.am, mark |-> SeqSet(r.mark), pods |-> r.pods]
 RPods(st)   == [p \in DOMAIN st.pods |-> RPod(st.pods[p])]
@@ -54,7 +56,8 @@ RJobs(st)   == [j \in DOMAIN st.jobs |-> JobCounters(st.jobs[j])]
 RQueues(st) == [q \in DOMAIN st.queues |-> QueueCounters(st.queues[q])]
 \* the projection compared by C13 on real states: everything logged, GPU groups of Pending pods normalised
 RNorm(st) == [st EXCEPT !.pods = [p \in DOMAIN st.pods |->
-                 [st.pods[p] EXCEPT !.groups = IF st.pods[p].st = "Pending" THEN <<>> ELSE @]]]
+                 [st.pods[p] EXCEPT !.groups = IF st.pods[p].st = "Pending" THEN <<>> ELSE @,
+                                    !.acc = IF ActiveAllocated(st.pods[p].st) THEN @ ELSE 0]]]
 ROps(o) == [i \in 1..Len(o) |-> [k |-> o[i].k, p |-> o[i].p, tgt |-> o[i].tgt + 1, valid |-> (o[i].valid = 1)]]
 
 SetCp(f, k, st) == [x \in DOMAIN f \cup {k} |-> IF x = k THEN st ELSE f[x]]
@@ -71,13 +74,17 @@ TraceInit ==
     /\ act = Lbl("Init", "", "", FALSE, <<>>, 0, "", TRUE)
     /\ cps = [x \in {0} |-> i]
     /\ rbOK = TRUE /\ dcOK = TRUE /\ pli = 0 /\ rem = <<>> /\ rdone = TRUE
-    /\ sync = TRUE /\ hid = {} /\ drifted = FALSE /\ taint = FALSE /\ dmsg = ""
+    /\ sync = TRUE /\ evb = [p \in DOMAIN Trace[i].cfg.pods |-> 0] /\ uvOK = TRUE /\ hid = {} /\ drifted = FALSE /\ taint = FALSE /\ dmsg = ""
 
 Ev == Trace[l]
 \* (observed from the logged call and the logged state before it) Pipeline of a shared pod that the node still
 \* holds (virtually evicted) onto other GPU groups of that node
-MovesGpu(e) == /\ cfg.pods[e.p].kind = "frac" /\ real.nodes[e.node].pods[e.p].st = "Releasing"
+MovesGpu(e) == /\ Shared(e.p) /\ real.nodes[e.node].pods[e.p].st = "Releasing"
                /\ real.nodes[e.node].pods[e.p].groups # e.g
+\* (observed) Pipeline of a pod the node still holds, without updateIfExists and not onto other GPUs: the code un-evicts
+UnevictPath(e) == real.nodes[e.node].pods[e.p].st # "none" /\ e.upd = 0 /\ ~MovesGpu(e)
+\* everything the session says about one pod: its own record and every node's entry for it
+PodSeen(st, p) == [pod |-> st.pods[p], on |-> [n \in DOMAIN st.nodes |-> st.nodes[n].pods[p]]]
 StillHidden(h, st) == {x \in h : st.nodes[x[1]].pods[x[2]].st = "Pipelined"}
 Here(kind) == l <= Len(Trace) /\ Trace[l].ev = kind
 
@@ -93,19 +100,26 @@ TraceCall ==
      IN
      /\ ri' = l /\ oi' = l /\ sync' = TRUE /\ l' = l + 1
      /\ hid' = StillHidden(hid \cup (IF e.op = "Pipeline" /\ MovesGpu(e) THEN {<<e.node, e.p>>} ELSE {}), e.state)
+     /\ evb' = IF e.op = "Evict" /\ e.err = 0 THEN [evb EXCEPT ![e.p] = ri] ELSE evb
+     /\ uvOK' = IF (e.op = "Unevict" \/ (e.op = "Pipeline" /\ UnevictPath(e))) /\ e.err = 0 /\ evb[e.p] # 0
+                THEN PodSeen(e.state, e.p) = PodSeen(Trace[evb[e.p]].state, e.p) ELSE TRUE
      /\ act' = Lbl(e.op, e.p, e.node, e.upd = 1, e.g, e.cp, e.j, e.err = 0)
      /\ CASE e.op = "Evict" ->
                /\ SetS(EvictOp(Cur, e.p)) /\ cps' = SetCp(cps, L, l)
                /\ UNCHANGED <<emitted, plan, phase, ci, conv, rbOK, dcOK, pli, rem, rdone, dmsg>>
           [] e.op = "Pipeline" ->
                /\ SetS(PipelineOp(Cur, e.p, e.node, e.upd = 1, e.g)) /\ cps' = SetCp(cps, L, l)
-               /\ UNCHANGED <<emitted, plan, phase, ci, conv, rbOK, dcOK, pli, rem, rdone, dmsg>>
+               /\ dmsg' = IF dmsg = "" /\ ~drifted /\ (e.err = 1) # PipelineFails(Cur, e.p, e.node, e.upd = 1, e.g)
+                          THEN "Pipeline: returned error differs from the model" ELSE dmsg
+               /\ UNCHANGED <<emitted, plan, phase, ci, conv, rbOK, dcOK, pli, rem, rdone>>
           [] e.op = "Allocate" ->
                /\ SetS(AllocateOp(Cur, e.p, e.node, e.g)) /\ cps' = SetCp(cps, L, l)
                /\ UNCHANGED <<emitted, plan, phase, ci, conv, rbOK, dcOK, pli, rem, rdone, dmsg>>
           [] e.op = "Unevict" ->
                /\ SetS(UnevictEarliest(Cur, e.p)) /\ cps' = SetCp(cps, L, l)
-               /\ UNCHANGED <<emitted, plan, phase, ci, conv, rbOK, dcOK, pli, rem, rdone, dmsg>>
+               /\ dmsg' = IF dmsg = "" /\ ~drifted /\ (e.err = 1) # UnevictFails(Cur, e.p)
+                          THEN "Unevict: returned error differs from the model" ELSE dmsg
+               /\ UNCHANGED <<emitted, plan, phase, ci, conv, rbOK, dcOK, pli, rem, rdone>>
           [] e.op = "Checkpoint" ->
                /\ cps' = SetCp(cps, e.cp, l)
                /\ dmsg' = IF dmsg = "" /\ e.cp # L THEN "Checkpoint() differs from the logged op-log length" ELSE dmsg
@@ -155,7 +169,7 @@ TraceCache ==
         ELSE /\ dmsg' = IF dmsg = "" THEN "Cache call although the model has no commit step left" ELSE dmsg
              /\ UNCHANGED <<pod, node, job, queue, ops, emitted, ci>>
   /\ sync' = FALSE /\ l' = l + 1
-  /\ UNCHANGED <<ri, oi, cps, rbOK, dcOK, pli, rdone, plan, phase, conv, act, hid>>
+  /\ UNCHANGED <<ri, oi, cps, rbOK, dcOK, pli, rdone, plan, phase, conv, act, hid, evb, uvOK>>
   /\ Keep
 
 \* a hook inside Rollback / Discard / Convert / Commit: only the real state is observed
@@ -163,7 +177,7 @@ TraceH ==
   /\ Here("H")
   /\ ri' = l /\ sync' = FALSE /\ l' = l + 1 /\ hid' = StillHidden(hid, Ev.state)
   /\ UNCHANGED <<pod, node, job, queue, ops, emitted, plan, phase, ci, conv, act,
-                 oi, cps, rbOK, dcOK, pli, rem, rdone, dmsg>>
+                 oi, cps, rbOK, dcOK, pli, rem, rdone, dmsg, evb, uvOK>>
   /\ Keep
 
 (***************************************************************************)
@@ -173,8 +187,11 @@ C13_RollbackObs == rbOK
 C13_DiscardObs  == dcOK
 rplan == IF pli = 0 THEN <<>> ELSE ROps(Trace[pli].ops)
 C13_CommitNetObs == CommitNetOK(rplan, rem, rdone)
+\* un-evicting a pod gives it back exactly what it had before its eviction (status, node, GPU groups, virtual flag,
+\* accepted resources, its entries on the nodes) - whatever the op log says
+C13_UnevictObs == uvOK
 
-RealPodView == [p \in DOMAIN real.pods |-> [st |-> real.pods[p].st]]
+RealPodView == [p \in DOMAIN real.pods |-> [st |-> real.pods[p].st, acc |-> real.pods[p].acc]]
 C14_JobObs   == \A j \in DOMAIN real.jobs : JobCounters(real.jobs[j]) = TruthJob(RealPodView, j)
 C14_QueueObs == \A q \in DOMAIN real.queues : QueueCounters(real.queues[q]) = TruthQueue(RealPodView, q)
 \* the vector form of a quantity equals its structured form (both logged)
@@ -195,7 +212,7 @@ C14_NodeBaseObs ==
        /\ r.ug = Sum(all, LAMBDA p : RG(p))
 
 \* StopOn selects the properties whose violation ends a scenario: "C13", "C14" or "all"
-Healthy == /\ (StopOn # "C14") => (C13_RollbackObs /\ C13_DiscardObs /\ C13_CommitNetObs)
+Healthy == /\ (StopOn # "C14") => (C13_RollbackObs /\ C13_DiscardObs /\ C13_CommitNetObs /\ C13_UnevictObs)
            /\ (StopOn # "C13") => (C14_JobObs /\ C14_QueueObs /\ C14_VectorObs /\ C14_NodeBaseObs)
 
 (***************************************************************************)
@@ -203,7 +220,7 @@ Healthy == /\ (StopOn # "C14") => (C13_RollbackObs /\ C13_DiscardObs /\ C13_Comm
 (***************************************************************************)
 \* after a property violation (of either family) the real code has left the specified behaviour: the model's
 \* predictions are then not comparable any more (no drift verdict for the rest of the scenario)
-AllC == C13_RollbackObs /\ C13_DiscardObs /\ C13_CommitNetObs /\ C14_JobObs /\ C14_QueueObs /\ C14_VectorObs /\ C14_NodeBaseObs
+AllC == C13_RollbackObs /\ C13_DiscardObs /\ C13_CommitNetObs /\ C13_UnevictObs /\ C14_JobObs /\ C14_QueueObs /\ C14_VectorObs /\ C14_NodeBaseObs
 Clean == sync /\ ~taint /\ AllC
 D_Pods   == Clean => RPods(real) = pod
 D_Nodes  == Clean => RNodes(real) = node
@@ -216,7 +233,7 @@ D_Ops    == (Clean /\ phase = "open") =>
                     /\ (ops[i].k = "undo" => r.tgt = ops[i].tgt)
                     /\ r.valid = OpValid(ops, i)
 D_Msg    == (~taint /\ AllC) => dmsg = ""
-D_NoErr  == (Clean /\ act.n \notin {"Init", "CommitEnd"}) => act.ok
+D_NoErr  == (Clean /\ act.n \notin {"Init", "CommitEnd", "Pipeline", "Unevict"}) => act.ok
 \* Commit returns the error of the LAST Bind / Evict call it made (a later success overwrites an earlier failure)
 D_CommitErr == (Clean /\ act.n = "CommitEnd") =>
                  LET F == {x \in 1..Len(rem) : rem[x].c \in {"bind", "evict"}}
@@ -236,6 +253,7 @@ Drift(name, ok) == ok \/ PrintT(<<"DRIFT", name, l0, l, dmsg>>)
 AllD == D_Pods /\ D_Nodes /\ D_Jobs /\ D_Queues /\ D_Ops /\ D_Msg /\ D_NoErr /\ D_CommitErr /\ D_Init /\ D_Shape
 Report ==
   /\ Viol("C13_RollbackObs", C13_RollbackObs) /\ Viol("C13_DiscardObs", C13_DiscardObs) /\ Viol("C13_CommitNetObs", C13_CommitNetObs)
+  /\ Viol("C13_UnevictObs", C13_UnevictObs)
   /\ Viol("C14_JobObs", C14_JobObs) /\ Viol("C14_QueueObs", C14_QueueObs) /\ Viol("C14_VectorObs", C14_VectorObs)
   /\ Viol("C14_NodeBaseObs", C14_NodeBaseObs)
   /\ drifted \/ ( /\ Drift("D_Pods", D_Pods) /\ Drift("D_Nodes", D_Nodes) /\ Drift("D_Jobs", D_Jobs) /\ Drift("D_Queues", D_Queues)
